@@ -26,12 +26,74 @@ def check(run, tier):
     E.judge(run, traces, only=ONLY, name="c16")
     E.summarise(run, traces)
     listed_versions_accepted(run)
+    wire_gating(run)
     for t in traces:
         for s in t["steps"]:
             if s.get("kind") == "req":
                 for k, it in enumerate(s["req"]["items"]):
                     r = s["res"]["items"][k] if k < len(s["res"]["items"]) else {"status": s["res"]["kind"], "reason": s["res"]["reason"]}
                     run.case(("cell", it["op"], s["req"]["ver"], r["status"], r["reason"]))
+
+
+def wire_gating(run):
+    """Message fields: for every field the wire schema (KmipSchema.tla, exported by TLC) introduces after KMIP 1.0 and every
+    earlier version under which its class exists - (sent) the library object with that field set, encoded under the earlier
+    version, must not carry the field (omitting it or refusing to encode are both fine); (accepted) bytes that carry the field,
+    produced under the introducing version, must not be accepted by the decoder under the earlier version."""
+    import random
+    from .. import schemabind as B, schemagen as SG
+    from . import c01
+    B.export()
+    S = B.S()
+    sc = S["schema"]
+    g = SG.Gen(random.Random(common.SEED + 16))
+    ncell = 0
+    for cls, fs in sorted(sc.items()):
+        vers = SG.versions_of(cls)
+        for f in fs:
+            lo = f["lo"]
+            if lo <= 10:
+                continue
+            tagnum = S["tag"].get(f["t"])
+            for v in vers:
+                if v >= lo:
+                    continue
+                ncell += 1
+                sig = {"cls": cls, "field": f["n"], "ver": v}
+                try:
+                    val = g.obj(cls, v, present=set())
+                    val[f["n"]] = g.field(cls, f, lo, 0)
+                    obj = B.construct(cls, val)
+                    data = B.encode(obj, v)
+                except Exception:
+                    data = None
+                if data is not None:
+                    root = c01.parse_items(data, 0, len(data))
+                    kids = [k[0] for k in root[0][2]] if root and root[0][1] == 1 else []
+                    run.case(("field-sent", cls, f["n"], v, tagnum in kids))
+                    if tagnum in kids:
+                        run.violation("C16_field_sent_early", sig, {"class": cls, "field": f["n"], "introduced_in": lo, "encoded_under": v,
+                                                                     "bytes": data.hex()[:400]})
+                if lo in vers:
+                    try:
+                        val = g.obj(cls, lo, present=set())
+                        val[f["n"]] = g.field(cls, f, lo, 0)
+                        obj = B.construct(cls, val)
+                        late = B.encode(obj, lo)
+                    except Exception:
+                        late = None
+                    if late is not None:
+                        try:
+                            B.decode(obj, late, v)
+                            accepted = True
+                        except Exception:
+                            accepted = False
+                        run.case(("field-accepted", cls, f["n"], v, accepted))
+                        if accepted:
+                            run.violation("C16_field_accepted_early", sig, {"class": cls, "field": f["n"], "introduced_in": lo,
+                                                                             "decoded_under": v, "bytes": late.hex()[:400]})
+    run.extra["version_gated_field_cells"] = ncell
+    run.traces += ncell
 
 
 def listed_versions_accepted(run):
